@@ -9,7 +9,9 @@ HEADER = ("From Coq Require Import List NArith ZArith Bool.\nFrom HIDI Require I
 def run_impl(binary, cases, chunk=400):
     results = []
     for i in range(0, len(cases), chunk):
-        out, err = run_harness(binary, "device", {"cases": cases[i:i + chunk]}, timeout=900)
+        # every third case runs with logging enabled, as in production (the log formatting paths are part of the event processing)
+        batch = [dict(c, logs=((i + j) % 3 == 0)) for j, c in enumerate(cases[i:i + chunk])]
+        out, err = run_harness(binary, "device", {"cases": batch}, timeout=900)
         if out is None:
             return None, err
         results += out["results"]
